@@ -81,12 +81,12 @@ def list (K : List Bytes) (P D M : Bytes) (N : Nat) : Page :=
 /-- ListObjectsV2: the listing starts after the larger of start-after and continuation token -/
 def markerV2 (startAfter token : Bytes) : Bytes := if blt token startAfter then startAfter else token
 
-/-- the first path element of `k` is an internal bookkeeping name (`.sgwtmp` directly below the
-bucket): such paths are not keys -/
+/-- `k` lies below an internal bookkeeping directory (`.sgwtmp` directly below the bucket): such
+paths are not keys -/
 def internal (skip : List Bytes) (k : Bytes) : Bool :=
   match splitOn 47 k with
-  | e :: _ => skip.contains e
-  | [] => false
+  | e :: _ :: _ => skip.contains e
+  | _ => false
 
 /-! ### Observation format shared with the model: objects with size/ETag, common prefixes -/
 
